@@ -275,3 +275,97 @@ def symListsOp (j : Json) : Json :=
   | none => jErr "symlists"
 
 end Tangelo.Driver
+
+namespace Tangelo.Driver
+open Tangelo.Codec Lean
+
+/-- {"op":"vqe_machine","h0":id,"hist":[{"k":"energy","theta":t}|{"k":"expect","op":id,"theta":t,"fail":"none|invalid|update|eval"}]}
+    → out: [[kind, evaluated operator|null, target after, params after|null, log length]] -/
+def vqeMachineOp (j : Json) : Json :=
+  match getInt? (j.getObjValD "h0"), j.getObjValD "hist" with
+  | some h0, .arr reqs =>
+    let parse : Json → Option Vqe.Req := fun r =>
+      match getStr r "k", getNat? (r.getObjValD "theta") with
+      | "energy", some t => some (.energy t)
+      | "expect", some t =>
+        match getInt? (r.getObjValD "op"), getStr r "fail" with
+        | some o, "none" => some (.expect o t .none)
+        | some o, "invalid" => some (.expect o t .invalid)
+        | some o, "update" => some (.expect o t .update)
+        | some o, "eval" => some (.expect o t .eval)
+        | _, _ => none
+      | _, _ => none
+    match reqs.toList.mapM parse with
+    | some rs =>
+      let tr := Vqe.trace { ham := h0, params := none, nLog := 0 } rs
+      let optN : Option Nat → Json := fun o => match o with | some n => natJ n | none => Json.null
+      let row : Vqe.Out × Vqe.St → Json := fun (o, s) =>
+        let (k, ev) := match o with
+          | .energy h _ => ("energy", intJ h)
+          | .expect op _ => ("expect", intJ op)
+          | .raised => ("raised", Json.null)
+        Json.arr #[Json.str k, ev, intJ s.ham, optN s.params, natJ s.nLog]
+      Json.mkObj [("out", Json.arr (tr.map row).toArray)]
+    | none => jErr "vqe_machine: bad request"
+  | _, _ => jErr "vqe_machine: bad arguments"
+
+end Tangelo.Driver
+
+namespace Tangelo.Driver
+open Tangelo.Codec Lean Tangelo.Reduce
+
+def gnameOf : String → GName
+  | "X" => .X | "Y" => .Y | "Z" => .Z | "RX" => .RX | "RY" => .RY | "RZ" => .RZ | _ => .other
+
+/-- {"op":"trim_classify","qubits":[[{"n":name,"flip":b},..],..]} → {"states":[0|1|null,..]} -/
+def trimClassifyOp (j : Json) : Json :=
+  match j.getObjValD "qubits" with
+  | .arr qs =>
+    let one : Json → Json := fun q =>
+      match q with
+      | .arr gs =>
+        match classify (gs.toList.map (fun g => { name := gnameOf (getStr g "n"), flip := getBool g "flip" })) with
+        | some b => natJ (if b then 1 else 0)
+        | none => Json.null
+      | _ => Json.null
+    Json.mkObj [("states", Json.arr (qs.map one))]
+  | _ => jErr "trim_classify"
+
+/-- {"op":"trim_terms","words":["XIZ",..],"states":[[q,b],..],"reindex":bool} → {"out":[[word, sign],..]} (sign 0 = vanishes) -/
+def trimTermsOp (j : Json) : Json :=
+  match j.getObjValD "words", j.getObjValD "states" with
+  | .arr ws, .arr ss =>
+    let states : List (Nat × Bool) := ss.toList.filterMap (fun s =>
+      match s with
+      | .arr #[q, b] => match getNat? q, getNat? b with
+        | some q, some b => some (q, b != 0)
+        | _, _ => none
+      | _ => none)
+    let reindex := getBool j "reindex"
+    let one : Json → Json := fun w =>
+      match w with
+      | .str s =>
+        match s.toList.mapM Letter.ofChar with
+        | some term =>
+          match trimTerm term states reindex with
+          | some (sg, new) => Json.arr #[Json.str (String.ofList (new.map Letter.toChar)), intJ sg]
+          | none => Json.arr #[Json.str "", intJ 0]
+        | none => Json.null
+      | _ => Json.null
+    Json.mkObj [("out", Json.arr (ws.map one))]
+  | _, _ => jErr "trim_terms"
+
+/-- {"op":"frob","coefs":["p/q",..] (sorted by magnitude),"eps":"p/q","n":n} → {"kept":[positions]} -/
+def frobOp (j : Json) : Json :=
+  match j.getObjValD "coefs", getNat? (j.getObjValD "n") with
+  | .arr cs, some n =>
+    let parse : Json → Option Rat := fun c => match c with | .str s => parseRat? s | _ => none
+    match cs.toList.mapM parse, parse (j.getObjValD "eps") with
+    | some coefs, some eps =>
+      let flags := frobKeep (eps * eps / (2 : Rat) ^ n) 0 coefs
+      let kept := (flags.zipIdx.filter (fun p => p.1)).map (fun p => natJ p.2)
+      Json.mkObj [("kept", Json.arr kept.toArray)]
+    | _, _ => jErr "frob: bad numbers"
+  | _, _ => jErr "frob"
+
+end Tangelo.Driver
